@@ -336,7 +336,7 @@ def build_cases(rng, tier):
                       'text': '', 'backend': 'nr'})
     # tables whose entries need 32 bits in the file (offsets in yy_base / yy_def beyond 32767): wide rows that do not compress
     from props import c02
-    for i in range(1 if tier == "quick" else 6):
+    for i in range(1 if tier == "quick" else 2):
         r = rng.fork("wide32_%d" % i)
         prog = c02.wide_program(r)
         cases.append({'id': "w%d" % i, 'kind': 'rt', 'prog': prog, 'seed': r.s, 'flex_opts': [["-C"], ["-Cm"], ["-Ca"]][i % 3] + ["-8"], 'extra_options': [],
